@@ -533,12 +533,14 @@ def initState (P : Problem α) (d0 : D) (pr : Params α) (stop : Nat → Bool) (
          stats := { stats0 garbageS with stepsizeBacktracks := r.2.2.1 }, k := 0, noProgress := 0,
          cbs := [], fuelOut := r.2.2.2 }
 
-/-- `ZeroFPRSolver::operator()`. `garbage*` is the arbitrary content of never-written storage. -/
+/-- `ZeroFPRSolver::operator()`. `garbage*` is the arbitrary content of never-written storage,
+    `infS` the value `inf<config_t>` that `Stats::ε` is initialised with (returned unchanged by the
+    early `NotFinite` exit; the driver passes `1.0/0.0`). -/
 def run (P : Problem α) (dir : Direction D α) (d0 : D) (pr : Params α) (stop : Nat → Bool)
-    (oot : Bool) (x0 y Sig errz0 : Vec α) (garbageV : Vec α) (garbageS : α) : Result α D :=
+    (oot : Bool) (x0 y Sig errz0 : Vec α) (garbageV : Vec α) (garbageS : α) (infS : α) : Result α D :=
   match initState P d0 pr stop x0 garbageV garbageS with
   | .inl ticks =>
-    { stats := { stats0 garbageS with status := .NotFinite }, dfinal := d0, x := x0, y := y,
+    { stats := { stats0 garbageS with status := .NotFinite, eps := infS }, dfinal := d0, x := x0, y := y,
       errz := errz0, wrote := false, callbacks := [], ticks := ticks, final := none }
   | .inr s => mainLoop P dir pr stop oot x0 y Sig errz0 (pr.maxIter + 2) s
 
